@@ -465,6 +465,9 @@ DL = "nostr_relay/dynamic_lists.py"
 KV = "nostr_relay/storage/kv.py"
 
 MUTANTS = [
+    M("c16-delegation-found-decides", "nostr_relay/storage/base.py", "                if match:\n                    matched.add(True)", "                if has_delegation:\n                    matched.add(True)", "C16.hastag"),
+    M("c16-service-key-unguarded", "nostr_relay/dynamic_lists.py", "        if Config.service_pubkey:\n            self.initial.append(Config.service_pubkey)", "        self.initial.append(Config.service_pubkey)", "C16.listquery"),
+    M("c16-list-query-capped", "nostr_relay/storage/db.py", "                limit = min(filter_obj.limit, self.default_limit)", "                limit = min(filter_obj.limit, self.default_limit, Config.max_limit)", "C16.listquery"),
     M("c16-clear-then-update", "nostr_relay/dynamic_lists.py", "                global_set.update(local_set)\n                global_set.intersection_update(local_set)\n", "                global_set.clear()\n                global_set.update(local_set)\n", "C16.lists"),
     M("c16-rebind-empty", "nostr_relay/dynamic_lists.py", "        self.log.info(\"Refreshing global lists\")\n", "        self.log.info(\"Refreshing global lists\")\n        global ALLOWED_PUBKEYS\n        ALLOWED_PUBKEYS = set()\n", "C16.lists"),
     M("c16-size-return-false", VAL, "        raise StorageError(\"invalid: 280 characters should be enough for anybody\")", "        return False", "C16.verdict", canary=True),
